@@ -5,6 +5,8 @@ from ..loader import AnalysisError, norm_stmt, walk_own
 from ..rules_flow import forwarding
 from .common import add_fwd
 from .common import check as ob
+from ..canon import Canon, localise, each, custom
+from ..guards import GuardEval, UNK, dominating_tests, preceding_exits
 
 EXPLANATION = (
     'Decides: (a) every regex scan that enumerates the occurrences of the query in the target passes '
@@ -110,21 +112,63 @@ def strip_both(ctx, rep, clause):
 
 def coverage_ranges(ctx, rep, clause):
     program = ctx.program
-    f = program.func(f'{SF}:coverage')
+
+    def returned(c, fnode):
+        for n in ast.walk(fnode):
+            if isinstance(n, ast.Return) and isinstance(n.value, ast.Name) and c.is_local(n.value.id):
+                return n.value.id
+        return None
+    f = localise(program.func(f'{SF}:coverage'), {'cov_arr': custom(returned), 'subsequence': each('subsequences')})
+    c = Canon(f.node)
     targets = []
     for node in walk_own(f.node):
         if isinstance(node, ast.Assign) and isinstance(node.targets[0], ast.Subscript) and \
                 isinstance(node.targets[0].slice, ast.Slice) and norm_stmt(node.targets[0].value) == 'cov_arr':
             targets.append(node)
-    ok = len(targets) == 2 and norm_stmt(targets[0].targets[0]) == norm_stmt(targets[1].targets[0])
-    ob(rep, 'SIB-range', f.fq, 'accumulate and binary branch mark the same range', ok,
-       norm_stmt(targets[0].targets[0]) if targets else '', 'the two branches write different ranges', f.loc(), clause)
-    for t in targets:
+
+    def bounds(t):
         sl = t.targets[0].slice
-        lo, up = norm_stmt(sl.lower), norm_stmt(sl.upper)
-        ob(rep, 'SIB-range', f.fq, f'`{norm_stmt(t.targets[0])[:70]}` is [i, i + len(query))',
-           up == f'{lo} + sequence_length(subsequence)', 'half-open range of the occurrence',
-           f'marks [{lo}, {up})', f.loc(t), clause)
+        return norm_stmt(c.resolve(sl.lower)) if sl.lower is not None else '', \
+            norm_stmt(c.resolve(sl.upper)) if sl.upper is not None else ''
+    ok = len(targets) == 2 and bounds(targets[0]) == bounds(targets[1])
+    ob(rep, 'SIB-range', f.fq, 'accumulate and binary branch mark the same range', ok,
+       ' : '.join(bounds(targets[0])) if targets else '', 'the two branches write different ranges', f.loc(), clause)
+    for i, t in enumerate(targets):
+        lo, up = bounds(t)
+        ob(rep, 'SIB-range', f.fq, f'range store #{i + 1} marks [i, i + len(query))',
+           up in (f'{lo} + sequence_length(subsequence)', f'{lo} + len(subsequence)',
+                  f'sequence_length(subsequence) + {lo}', f'len(subsequence) + {lo}'),
+           'half-open range of the occurrence', f'marks [{lo}, {up})', f.loc(t), clause)
+    # every listed subsequence that fits into the target is searched: a guard that skips the search is decided over
+    # the finite set of (query length q, target length n) with 1 <= q <= n
+    loop = None
+    for node in walk_own(f.node):
+        if isinstance(node, ast.For) and norm_stmt(node.iter) == 'subsequences':
+            loop = node
+    if loop is None:
+        raise AnalysisError('coverage: the loop over the listed subsequences was not found')
+    search = [x for x in ast.walk(loop) if isinstance(x, ast.Call) and norm_stmt(x.func) == 'find_subsequence_indices']
+    if not search:
+        raise AnalysisError('coverage: the search call inside the loop was not found')
+    tests = list(dominating_tests(loop, search[0])) + [(t, False) for t in preceding_exits(loop.body, search[0])]
+    bad = None
+    for n_ in range(1, 5):
+        for q in range(1, n_ + 1):
+            env = {}
+            for qa in ('sequence_length(subsequence)', 'len(subsequence)', 'len(subsequence.sequence)'):
+                env[qa] = q
+            for na in ('len(cov_arr)', 'sequence_length(sequence)', 'len(sequence)', 'len(sequence.sequence)'):
+                env[na] = n_
+            ge = GuardEval(env, c.aliases())
+            for t, pol in tests:
+                v = ge.eval(t)
+                if v is not UNK and bool(v) != pol and bad is None:
+                    bad = (q, n_, norm_stmt(t))
+    ob(rep, 'SIB-range', f.fq, 'every listed subsequence that fits into the target is searched', bad is None,
+       f'{len(tests)} guard(s) decided for 1 <= len(query) <= len(target) <= 4',
+       f'for a query of length {bad[0] if bad else ""} and a target of length {bad[1] if bad else ""} the guard '
+       f'`{bad[2] if bad else ""}` skips the search: occurrences of that subsequence are never marked', f.loc(search[0]),
+       clause)
 
 
 def check(ctx, rep):
@@ -136,6 +180,8 @@ def check(ctx, rep):
     rep.floor('FWD', 'ignore_mods forwarding sites', n, 2)
     strip_both(ctx, rep, 'C16b')
     coverage_ranges(ctx, rep, 'C16c')
+    from . import C20
+    C20.empty_vs_absent(ctx, rep, 'C16a')
     for fq in (f'{SF}:is_subsequence', f'{SF}:count_residues', f'{SF}:find_subsequence_indices', f'{SF}:coverage',
                f'{PP}:ProFormaAnnotation.is_subsequence', f'{PP}:ProFormaAnnotation.find_indices',
                f'{PP}:ProFormaAnnotation.count_residues'):
